@@ -331,13 +331,15 @@ def check_prototypes(ctx, num=4):
     for meth, clamp in (("generate_segment_not_heavy_io", True), ("generate_segment", False)):
         if meth not in cls.methods:
             continue
-        m = cls.methods[meth]
+        from ..util import inline_helpers
+        m = inline_helpers(P, cls.methods[meth])     # the draw may live in a private helper
         ctx.touch(m)
         draws = [c for c in calls_named(m, "normal") if norm.U(c.func.value) == "self.rng"]
         okd = len(draws) == 1 and len(draws[0].args) >= 1 and norm.U(draws[0].args[0]) == "self.cpu_io_ratio"
         rets = [r for r in own_nodes(m.node) if isinstance(r, ast.Return) and r.value is not None]
         vn = parent(draws[0]).targets[0].id if okd and isinstance(parent(draws[0]), ast.Assign) else None
-        okr = len(rets) == 1 and vn and norm.U(rets[0].value) == f"self.generate_segment_from_val({vn})"
+        okr = len(rets) == 1 and ((vn and norm.U(rets[0].value) == f"self.generate_segment_from_val({vn})")
+                                  or (okd and not clamp and norm.U(rets[0].value) == f"self.generate_segment_from_val({norm.U(draws[0])})"))
         ctx.ob(num, "K6", f"{meth}: the prototype is selected from a normal draw centred on cpu_io_ratio (so the parameter reaches the selection)", okd and bool(okr), m,
                draws[0] if draws else m.node, detail=f"draws: {[norm.U(c) for c in draws]}; returns: {[stmt_text(r) for r in rets]}")
         if clamp and okd and vn:
